@@ -65,6 +65,10 @@ func (s *NCServer) Start() []byte {
 	return []byte(s.Hello)
 }
 
+// Hellos: how many client hellos this server has seen (= which connection is in progress). Call with the pipe's mutex held or
+// from a reply function.
+func (s *NCServer) Hellos() int { return s.hellos }
+
 // State implements Reactor.
 func (s *NCServer) State() string {
 	if s.Version == "" {
